@@ -56,6 +56,21 @@ BUILT.update({
           "All multiparty protocols for 2..4 (thorough 6) parties, BFV/BGV/CKKS where accepted: outputs identical across parties and delivery orders, collective keys correspond to the summed secret within the noise bound, decryption / key switching / public-key switching preserve the plaintext, shares sum to the plaintext and convert back, missing messages make finish panic.",
           "shares_to_cipher: correctness is demanded of the designated aggregator (party 0), as in the library's own usage.", "DESIGN.md §3 C18"),
 })
+
+BUILT.update({
+ "C12": e("reference-model monitor: plaintext residues inverse-transformed with the reference NTT, CRT-lifted to one big-integer vector and compared with the rounded scaled reference embedding; refusal thresholds with safety bands",
+          "All five encoding entry points (both forms), chains of 1..19 primes, every level, scaled magnitudes below 64 / 64..128 / above 128 bits: one consistent integer coefficient vector in every RNS component, equal to the rounded scaled preimage within 1/2 + a derived double-precision bound; decode returns the input; out-of-range scales / magnitudes refused.",
+          "Double-precision bound derived from the FFT stage count (stated in evidence); 2^-20 bands around refusal thresholds are not asserted.", "DESIGN.md §3 C12"),
+ "C14": e("runtime monitor over a zoo of ~170 objects per context: counting writer / cursor position / field-wise comparison in the same and in a context rebuilt from the deserialized parameters; seeded-vs-expanded equivalence in later operations",
+          "Every serializable type and format on parameter sets whose primes sit on every byte-width boundary: restored == original field by field, announced size == written == consumed (with trailing garbage and concatenated streams), seeded objects restore to their expanded form, selected-terms format restores exactly the selected coefficients, seeded and expanded objects interchangeable in later operations.",
+          "Later-operation semantic checks only inside an analytic noise precondition.", "DESIGN.md §3 C14"),
+ "C15": e("fault enumeration: ShortWriter / FailingWriter / TruncatedReader / ShortReader wrapped around every (de)serializer, every failure and truncation offset of every encoding <= 4 KiB",
+          "For 29 types/formats: a writer accepting 1..8 bytes per call or failing at any offset yields Err or the complete encoding; every strict prefix of an encoding yields Err on deserialization; short reads still succeed; no panics.",
+          "Offsets fully enumerated for encodings <= 4 KiB, field-boundary neighbourhoods + stride above; objects sampled.", "DESIGN.md §3 C15", "fault_enumeration"),
+ "C19": e("runtime monitor: exhaustive (index, pack count, trace parameter) sweeps at small N through the real LWE utilities, decided by the library decryptor and the oracle decryptor on index-revealing plaintexts",
+          "N=4..32 (thorough 64) exhaustive over coefficient index, pack count and trace parameter, three schemes, both input representations, two levels: extraction+assembly yields m_i in the constant coefficient, the field trace keeps exactly the multiples of N/2^l scaled by N/2^l, packing k extractions yields the values at stride N/2^ceil(log2 k); larger N sampled; every intermediate ciphertext valid.",
+          "Key-switch noise precondition analytic; CKKS asserted when the tolerance is <= 1/(4N).", "DESIGN.md §3 C19"),
+})
 hook_commits = subprocess.check_output(["git", "-C", "/repo", "log", "--format=%H %s"]).decode().splitlines()
 hooks = [l.split()[0] for l in hook_commits if l.split(" ", 1)[1].startswith("verif hooks")]
 checks, na = [], []
